@@ -19,7 +19,7 @@ KINDS = ["call", "publish", "subscribe", "register", "unsubscribe", "unregister"
 
 
 def plan(tier, seed):
-    n = 500 if tier == "quick" else 4000
+    n = 500 if tier == "quick" else 10000
     jobs = []
     for i, fw in enumerate(("twisted", "asyncio")):
         for sh in range(3 if tier == "quick" else 8):
